@@ -610,6 +610,126 @@ class Gen:
             self.classes[p]["bound_ok"] = False     # the name no longer denotes a class
         self.features.add("rebind_superclass_name")
 
+    def inner_class(self, name, parent, cap):
+        """a class DERIVED from a global class, declared in some local scope: its initialiser and its methods use
+        `super.new(..)`, `super.m(..)`, a bound `super.m`, also from a nested function"""
+        r = self.r
+        pinfo = self.classes[parent]
+        vis = self.visible(parent)
+        info = {"parent": parent, "methods": {}, "ctor": None, "ctor_visible": None}
+        self.classes[name] = info
+        decls = []
+        defctor = None
+        pct = pinfo["ctor_visible"]
+        if pct is not None and r.random() < 0.75:
+            ps = ["a", "b"][: r.choice([1, 1, 2])]
+            body = [S_print(E_str("%s.new" % name)), S_print(E_var(cap))]
+            body += [S_setf("ESelf", "g%d" % i, E_var(q)) for i, q in enumerate(ps)]
+            sargs = [E_var(ps[i % len(ps)]) for i in range(pct)]
+            if r.random() < 0.25:
+                body.append(S_fun("init_sup", [], [S_ret(E_sinv("new", sargs))], r.choice([0, 1])))
+                body.append(S_expr(E_call(E_var("init_sup"), [])))
+                self.features.add("super_new_in_nested_fn")
+            else:
+                body.append(S_expr(E_sinv("new", sargs)))
+            body.append(S_print(E_eq("ESelf", "ESelf")))
+            decls.append(M_decl("KInit", "new", ps, body, self.lab()))
+            info["ctor"] = len(ps)
+            self.features.add("scoped_super_new")
+        else:
+            defctor = "new"
+            info["ctor"] = 0
+        info["ctor_visible"] = info["ctor"]
+        ms = sorted(n for n, (ar, k) in vis.items() if k == "KMethod" and n != "derives")
+        for n in r.sample(ms, min(2, len(ms))):
+            ar = vis[n][0]
+            ps = ["a", "b"][:ar]
+            pa = [E_var(q) for q in ps]
+            body = [S_print(E_str("%s.%s" % (name, n))), S_print(E_var(cap))]
+            st = r.random()
+            if st < 0.4:
+                body.append(S_print(E_eq(E_sinv(n, pa), "ESelf")))
+                self.features.add("scoped_super_invoke")
+            elif st < 0.7:
+                body.append(S_var("sf", E_sget(n)))
+                body.append(S_print(E_eq(E_call(E_var("sf"), pa), "ESelf")))
+                self.features.add("scoped_super_bound")
+            else:
+                body.append(S_fun("via", [], [S_ret(E_sinv(n, pa))], r.choice([0, 1])))
+                body.append(S_print(E_eq(E_call(E_var("via"), []), "ESelf")))
+                self.features.add("scoped_super_in_nested_fn")
+            body.append(S_ret("ESelf"))
+            decls.append(M_decl("KMethod", n, ps, body, self.lab()))
+            info["methods"][n] = (ar, "KMethod")
+        return S_class(name, parent, defctor, decls, self.lab())
+
+    def scoped_factory(self, kind=None, lam=None, via_instance=None):
+        """a derived class declared in the local scope of a plain function, an instance method, a static method or an
+        initialiser of ANOTHER class - directly or inside a lambda / nested function in it"""
+        r = self.r
+        parents = [c for c in self.order if self.classes[c].get("bound_ok", True)]
+        if not parents:
+            return
+        withctor = [c for c in parents if self.classes[c]["ctor_visible"] is not None]
+        parent = r.choice(withctor) if withctor and r.random() < 0.85 else r.choice(parents)
+        kind = kind or r.choice(["fun", "method", "static", "static", "init"])
+        lam = r.random() < 0.45 if lam is None else lam
+        k = self.lab()
+        iname = "I%d" % k
+        cls = self.inner_class(iname, parent, "t")
+        if lam:
+            wrap = r.choice([0, 1])       # 1: written as a lambda
+            scope = [S_fun("lam", [], [cls, S_ret(E_var(iname))], wrap)]
+            got = E_call(E_var("lam"), [])
+            self.features.add("scoped_class_in_lambda" if wrap else "scoped_class_in_nested_fn")
+        else:
+            scope = [cls]
+            got = E_var(iname)
+        K = self.new_var("K")
+        if kind == "fun":
+            fn = "mkf%d" % k
+            self.stmts.append(S_fun(fn, ["t"], scope + [S_ret(got)]))
+            self.globals.append(fn)
+            self.stmts.append(S_var(K, E_call(E_var(fn), [E_str("cap%d" % k)])))
+        else:
+            oname = "F%d" % k
+            self.globals.append(oname)
+            if kind == "method":
+                mem = M_decl("KMethod", "build", ["t"], [S_print(E_str("%s.build" % oname))] + scope + [S_ret(got)], self.lab())
+                self.stmts.append(S_class(oname, None, "new", [mem], self.lab()))
+                o = self.new_var("o")
+                self.stmts.append(S_var(o, E_inv(E_var(oname), "new", [])))
+                self.stmts.append(S_var(K, E_inv(E_var(o), "build", [E_str("cap%d" % k)])))
+            elif kind == "static":
+                mem = M_decl("KStatic", "build", ["t"], [S_print(E_str("%s.build" % oname)), S_print("ECapSelf")] + scope + [S_ret(got)],
+                             self.lab())
+                self.stmts.append(S_class(oname, None, "new", [mem], self.lab()))
+                if (r.random() < 0.3) if via_instance is None else via_instance:
+                    o = self.new_var("o")
+                    self.stmts.append(S_var(o, E_inv(E_var(oname), "new", [])))
+                    self.stmts.append(S_var(K, E_inv(E_var(o), "build", [E_str("cap%d" % k)])))
+                    self.features.add("scoped_static_factory_through_instance")
+                else:
+                    self.stmts.append(S_var(K, E_inv(E_var(oname), "build", [E_str("cap%d" % k)])))
+            else:
+                mem = M_decl("KInit", "new", ["t"], [S_print(E_str("%s.new" % oname))] + scope + [S_setf("ESelf", "k", got)], self.lab())
+                self.stmts.append(S_class(oname, None, None, [mem], self.lab()))
+                o = self.new_var("o")
+                self.stmts.append(S_var(o, E_inv(E_var(oname), "new", [E_str("cap%d" % k)])))
+                self.stmts.append(S_var(K, E_get(E_var(o), "k")))
+        self.features.add("scoped_class_in_" + kind)
+        info = self.classes[iname]
+        self.classes[K] = info
+        x = self.new_var()
+        args = [E_num(r.randint(0, 9)) for _ in range(info["ctor"])]
+        self.stmts.append(S_var(x, E_inv(E_var(K), "new", args)))
+        self.insts.append((x, iname))
+        self.stmts.append(self.maybe_try(S_print(E_get(E_var(x), "f0")), 0.9))
+        for n, (ar, _) in sorted(info["methods"].items()):
+            self.stmts.append(self.maybe_try(S_print(E_eq(E_inv(E_var(x), n, self.args(ar)), E_var(x))), 0.9))
+        self.stmts.append(S_print(E_inv(E_var(x), "derives", [E_var(parent)])) if "derives" not in self.visible(parent)
+                          else S_ptype(E_var(x)))
+
     def local_factory(self):
         """a class declared in a function's scope, deriving from a global class, with methods that capture a
         local variable; the class escapes through a closure"""
@@ -699,6 +819,8 @@ class Gen:
         for c in self.order:
             if r.random() < 0.8:
                 self.construct(c)
+        if r.random() < 0.45:
+            self.scoped_factory()
         k = r.randint(8, 22 if self.big else 16)
         for _ in range(k):
             c = r.random()
@@ -712,8 +834,10 @@ class Gen:
                 self.rebind()
             elif c < 0.88:
                 self.bad_superclass()
-            elif c < 0.95:
+            elif c < 0.92:
                 self.local_factory()
+            elif c < 0.96:
+                self.scoped_factory()
             else:
                 self.use_instance()
         return "[" + ";\n ".join(self.stmts) + "]"
@@ -755,8 +879,37 @@ def fixed_programs():
               S_print(E_eq(E_call(E_var("g"), []), E_var("x"))),
               S_print(E_eq(E_inv(E_var("B"), "who", []), E_var("B"))),
               S_print(E_eq(E_inv(E_var("x"), "who", []), E_var("B")))]
+    # a class factory in a STATIC method of another class (directly and inside a lambda): the inner class's initialiser
+    # and methods use super; their receiver is the inner method's own self, not the factory's Self
+    P = S_class("P", None, None, [
+        M_decl("KInit", "new", ["a"], [S_setf("ESelf", "f0", E_var("a"))], 1),
+        M_decl("KMethod", "m", [], [S_print(E_str("P.m")), S_print(E_get("ESelf", "f0")), S_ret("ESelf")], 2),
+        M_decl("KMethod", "describe", [], [S_ptype("ESelf"), S_ret(E_get("ESelf", "f0"))], 3)], 4)
+
+    def inner(nm, l0):
+        return S_class(nm, "P", None, [
+            M_decl("KInit", "new", ["a"], [S_print(E_var("t")), S_expr(E_sinv("new", [E_var("a")]))], l0),
+            M_decl("KMethod", "m", [], [S_print(E_str(nm + ".m")), S_ret(E_sinv("m", []))], l0 + 1),
+            M_decl("KMethod", "describe", [], [S_var("sf", E_sget("describe")), S_ret(E_call(E_var("sf"), []))], l0 + 2)], l0 + 3)
+
+    F = S_class("F", None, "new", [
+        M_decl("KStatic", "build", ["t"], [inner("I", 5), S_ret(E_var("I"))], 9),
+        M_decl("KStatic", "build2", ["t"], [S_fun("lam", [], [inner("J", 10), S_ret(E_var("J"))], 1), S_ret(E_call(E_var("lam"), []))], 14),
+        M_decl("KMethod", "build3", ["t"], [inner("L", 15), S_ret(E_var("L"))], 19)], 20)
+    factory = [P, F]
+    for i, (how, arg) in enumerate([(E_inv(E_var("F"), "build", [E_str("cap1")]), 5),
+                                    (E_inv(E_var("F"), "build2", [E_str("cap2")]), 6),
+                                    (E_inv(E_inv(E_var("F"), "new", []), "build", [E_str("cap3")]), 7),
+                                    (E_inv(E_inv(E_var("F"), "new", []), "build3", [E_str("cap4")]), 8)]):
+        K, x = "K%d" % i, "x%d" % i
+        factory += [S_var(K, how), S_var(x, E_inv(E_var(K), "new", [E_num(arg)])),
+                    S_try([S_print(E_get(E_var(x), "f0"))]),
+                    S_try([S_print(E_eq(E_inv(E_var(x), "m", []), E_var(x)))]),
+                    S_try([S_print(E_inv(E_var(x), "describe", []))])]
     return [{"term": "[" + ";\n ".join(stmts) + "]", "globals": ["Shape", "Polygon", "Square", "Circle", "p", "b", "q", "o"],
              "features": ["fixed:object_method_override"]},
+            {"term": "[" + ";\n ".join(factory) + "]", "globals": ["P", "F"] + ["K%d" % i for i in range(4)] + ["x%d" % i for i in range(4)],
+             "features": ["fixed:class_factory_in_static_method"]},
             {"term": "[" + ";\n ".join(nested) + "]", "globals": ["A", "B", "x", "g"],
              "features": ["fixed:super_in_nested_fn"]}]
 
@@ -780,7 +933,7 @@ def model_eval(cases, tag):
         if s is None:
             out.append(None)
             continue
-        f = s.split("|")
+        f = s.split("@")
         if len(f) != 8:
             out.append(None)
             continue
@@ -965,9 +1118,22 @@ def report(ctx, cases, models, fails, stats, do_shrink=True):
                     src = mm["src"]
             except Exception as e:   # shrinking is best effort
                 ctx.notes.append("shrinking failed: %r" % e)
+        extra = {}
+        if nviol == 0 and kind == "impl!=S":
+            try:
+                v = yvlib.coq_eval(["YV:ClassLang"], ["variant_case %s" % c["term"]], shard_size=1, tag="c07_variant",
+                                   preamble="Open Scope string_scope.")[0]
+                if v:
+                    old, anyst = v.split("@")
+                    impl_o = detail.get("impl")
+                    extra["implementation_behaves_like_model_variant"] = (
+                        "SuperRunningFrame (super_ before 0fbde2d)" if impl_o == old else
+                        "SuperAnyStaticSelf (receiver = Self of any enclosing static method)" if impl_o == anyst else "none")
+            except Exception as e:
+                extra["variant_diagnosis_failed"] = repr(e)
         ctx.violation("%s on a generated class program" % kind, input={"source": src, "term": term, "globals": c["globals"]},
                       expected=detail.get("spec", detail.get("invoke")), actual=detail.get("impl", detail.get("get_then_call")),
-                      features=c["features"])
+                      features=c["features"], **extra)
         nviol += 1
 
 
@@ -1110,24 +1276,34 @@ def run(ctx):
 
 
 def search(ctx):
-    """obligations or correspondences are broken and no violation was found: look for a failing input with more,
-    bigger programs, compared with the Spec only"""
+    """obligations or correspondences are broken and no violation was found: look for a failing input with further,
+    bigger programs compared with the Spec.  Bounded: batches of 160 programs until a failing input is found, at most
+    3 batches (quick) / 6 (thorough) and at most ~4 minutes of wall time."""
+    import time
     if ctx.replay_only is not None:
         return
+    t0 = time.time()
     rng = yvlib.Rng(ctx.seed * 7919 + 7)
-    cases = [gen_program(rng, big=True) for _ in range(1500 if ctx.quick() else 6000)]
-    stats = new_stats()
-    try:
-        models, recs, recsm = run_batch(ctx, cases, "c07_search", stats)
-    except Exception as e:
-        ctx.notes.append("search could not run: %r" % e)
-        return
-    d = Dummy()
-    fails = [f for f in compare(d, cases, models, recs, recsm, stats) if f[1] in ("impl!=S", "metamorphic", "tables")]
-    if fails:
-        keep = []
-        for f in fails:
-            if f[1] != "tables" or not keep:
-                keep.append(f)
-        report(ctx, cases, models, keep, stats)
-    ctx.cov["search_programs"] = len(cases)
+    total = 0
+    for batch in range(3 if ctx.quick() else 6):
+        if time.time() - t0 > 240:
+            ctx.notes.append("search stopped after %.0f s (time bound)" % (time.time() - t0))
+            break
+        cases = [gen_program(rng, big=True) for _ in range(160)]
+        stats = new_stats()
+        try:
+            models, recs, recsm = run_batch(ctx, cases, "c07_search", stats)
+        except Exception as e:
+            ctx.notes.append("search could not run: %r" % e)
+            break
+        total += len(cases)
+        fails = [f for f in compare(Dummy(), cases, models, recs, recsm, stats) if f[1] in ("impl!=S", "metamorphic", "tables")]
+        if fails:
+            keep = []
+            for f in fails:
+                if f[1] != "tables" or not keep:
+                    keep.append(f)
+            report(ctx, cases, models, keep, stats, do_shrink=False)
+            break
+    ctx.cov["search_programs"] = total
+    ctx.cov["search_wall_s"] = round(time.time() - t0, 1)
